@@ -323,6 +323,12 @@ func runList(hs *history) (fails []h.Failure) {
 					fail("reverse-not-involution", "逆序 twice: "+why)
 					return
 				}
+				// the reversed list is a list of its own: changing IT leaves the receiver alone
+				// (the comparison of every collection with its model follows below)
+				if _, err := got.ExecMethod("后增", []r.Element{value.NewString("仅在逆序中")}); err != nil {
+					fail("reverse-result-not-a-list", err.Error())
+					return
+				}
 			case "contains", "find":
 				needle := poolValue(o.V)
 				pos := 0
